@@ -259,6 +259,11 @@ def semimdp(sx, shape, kind, term, start, nsim, primitive, again=False):
                 sx.prove(L.index(ns) in term, f'{tag}outcome-ends-in-the-options-terminal-set')
                 got_groups.setdefault((ns, t), []).append((r, p))
             sx.prove(set(groups) == set(got_groups), f'{tag}outcome-support-is-empirical')
+            # every reported triple is the triple of some simulation (outcomes with equal end state and duration are NOT merged)
+            for (ns, t, r), p in items:
+                cands = groups.get((ns, t), [])
+                hit = core.sany([sx.close(r, cum) for cum in cands]) if cands else False
+                sx.prove(hit, f'{tag}reported-reward-is-the-return-of-a-simulation[{L.index(ns)},{t}]')
             for k, cums in groups.items():
                 gp = got_groups.get(k, [])
                 sx.prove_eq(ssum(p for _, p in gp), F(len(cums), nsim), f'{tag}outcome-frequency[{L.index(k[0])},{k[1]}]')
